@@ -400,6 +400,13 @@ pub fn arr12(c: &Cur, a: usize) -> (r: [u8; 12])
     requires a + 12 <= c.rem().len()
     ensures r@ == c.rem().subrange(a as int, a + 12)
 { unimplemented!() }
+// the same expression with any other bounds / array length: `bytes[a..b]` panics unless a <= b <= len, and
+// `<&[u8; N]>::try_from(slice).unwrap()` panics unless the slice has exactly N bytes
+#[verifier::external_body]
+pub fn arr_from_to<const N: usize>(c: &Cur, a: usize, b: usize) -> (r: [u8; N])
+    requires a <= b <= c.rem().len(), b - a == N
+    ensures r@ == c.rem().subrange(a as int, b as int)
+{ unimplemented!() }
 fn max_u32(a: u32, b: u32) -> (r: u32) ensures r == if a >= b { a } else { b } { if a >= b { a } else { b } }
 fn min_u32(a: u32, b: u32) -> (r: u32) ensures r == if a <= b { a } else { b } { if a <= b { a } else { b } }
 
